@@ -57,14 +57,18 @@ def key_from_json(j):
 
 
 class KeyTable(object):
-    def __init__(self):
+    """Declared entry names of all classes get a Coq identifier (defined once per shard);
+    every other key is written as a string literal where it is used."""
+
+    def __init__(self, classes=()):
         self.ids = {}
+        for cls in classes:
+            for k in cls.entry_objs:
+                self.ids.setdefault(canon_key(k), "k%d" % len(self.ids))
 
     def ref(self, k):
         c = canon_key(k)
-        if c not in self.ids:
-            self.ids[c] = "k%d" % len(self.ids)
-        return self.ids[c]
+        return self.ids[c] if c in self.ids else "(%s)" % cstr(c)
 
     def defs(self):
         return "\n".join("Definition %s := %s." % (i, cstr(c)) for c, i in sorted(self.ids.items(), key=lambda t: int(t[1][1:])))
@@ -482,7 +486,7 @@ def run(ctx):
         if v not in ("checked", "unchecked"):
             ctx.violation("fixeddict-ior-unexpected-behaviour", {"cls": cls.__module__ + ":" + cls.__name__},
                           "`d |= {undeclared: 0}` on a fresh %s: %s" % (cls.__name__, v))
-    kt = KeyTable()
+    kt = KeyTable(classes)
     cls_ids = dict((cls, "c_%d_%s" % (i, cls.__name__)) for i, cls in enumerate(classes))
 
     hists = list(corpus(classes))
